@@ -119,7 +119,9 @@ def fit_to_data(
         losses["val"].append(sum(batch_losses) / len(batch_losses))
 
         loop.set_postfix({k: v[-1] for k, v in losses.items()})
-        if losses["val"][-1] == min(losses["val"]):
+        # Only a strict improvement counts: a tie is an epoch "with no validation loss
+        # improvement", consistent with count_fruitless (counts from the first minimum).
+        if len(losses["val"]) == 1 or losses["val"][-1] < min(losses["val"][:-1]):
             best_params = params
 
         elif count_fruitless(losses["val"]) > max_patience:
